@@ -79,6 +79,12 @@ Core == <<
   \* names: conflicts, parentheses, top / bottom with tags, calls inside binary expressions
   St("SELECT v_1, v, v, mean(v), mean(v) AS v, (v), (v + w) * 2, (v + f(w)), u + w, u + 1 FROM m"),
   St("SELECT top(v, host, region, 3), bottom(w, host, 2), w INTO db.rp.t FROM db.rp.m"),
+  \* field lists whose slice has spare capacity (3, 5, 6, 7 parsed fields; one shortened by RewriteTimeFields) with a
+  \* selector call that contributes tag columns before further fields: an in-place insert would overwrite them
+  St("SELECT top(v, host, 2), w, x FROM m"),
+  St("SELECT a, bottom(v, host, region, 2), w, x, y FROM m"),
+  St("SELECT top(v, host, 2), w, x, y, z, u FROM m GROUP BY region"),
+  St("SELECT time, top(v, host, 2), w FROM m"),
   \* regex conditions: rewritten and not rewritten shapes
   St("SELECT v FROM m WHERE a =~ /^a/ AND b =~ /a$/ AND c =~ /^(a|b.*)$/ AND d !~ /^a|b$/ AND e =~ /^(x)$/ AND f =~ /^x\\.y$/")
 >>
